@@ -644,7 +644,7 @@ func variant(r *prng.Rng, md protoreflect.MessageDescriptor, b []byte, depth int
 		case fd.IsMap() && x.typ == protowire.BytesType:
 			ers, ok := parseRecs(payloadOf(x))
 			if ok {
-				switch r.Intn(6) {
+				switch r.Intn(8) {
 				case 0: // value before key
 					for i, j := 0, len(ers)-1; i < j; i, j = i+1, j-1 {
 						ers[i], ers[j] = ers[j], ers[i]
@@ -667,6 +667,28 @@ func variant(r *prng.Rng, md protoreflect.MessageDescriptor, b []byte, depth int
 					if withUnknown {
 						ers = append(ers, rec{7, protowire.VarintType, []byte{1}})
 						applied = append(applied, "map-entry-unknown-field")
+					}
+				case 4: // key, another value, value: the LAST value counts (scalar values only: messages merge)
+					if fd.MapValue().Message() == nil {
+						for i, e := range ers {
+							if e.num == 2 {
+								dup := otherValue(r, e)
+								rest := append(append([]rec{}, ers[:i]...), ers[i+1:]...)
+								ers = append(append(rest, dup), e)
+								applied = append(applied, "map-entry-value-again-after-both")
+								break
+							}
+						}
+					}
+				case 5: // another key, value, key: the LAST key counts
+					for i, e := range ers {
+						if e.num == 1 {
+							dup := otherValue(r, e)
+							rest := append(append([]rec{}, ers[:i]...), ers[i+1:]...)
+							ers = append(append([]rec{dup}, rest...), e)
+							applied = append(applied, "map-entry-key-again-after-both")
+							break
+						}
 					}
 				}
 				out = append(out, lenRec(x.num, emitRecs(ers)))
@@ -767,7 +789,51 @@ func variant(r *prng.Rng, md protoreflect.MessageDescriptor, b []byte, depth int
 		out = perm
 		applied = append(applied, "reordered")
 	}
+	if r.Chance(1, 6) {
+		// an empty packed run (legal: zero elements) of some repeated scalar field, somewhere or as the very last field
+		var cands []protoreflect.FieldDescriptor
+		for i := 0; i < md.Fields().Len(); i++ {
+			if fd := md.Fields().Get(i); packable(fd) {
+				cands = append(cands, fd)
+			}
+		}
+		if len(cands) > 0 {
+			e := lenRec(protowire.Number(cands[r.Intn(len(cands))].Number()), nil)
+			if r.Bool() {
+				out = append(out, e)
+				applied = append(applied, "empty-packed-run-last")
+			} else {
+				pos := r.Intn(len(out) + 1)
+				out = append(out[:pos:pos], append([]rec{e}, out[pos:]...)...)
+				applied = append(applied, "empty-packed-run")
+			}
+		}
+	}
 	return emitRecs(out), applied
+}
+
+// otherValue: a record of the same number and wire type as x carrying a different value.
+func otherValue(r *prng.Rng, x rec) rec {
+	dup := x
+	switch x.typ {
+	case protowire.VarintType:
+		v, _ := protowire.ConsumeVarint(x.val)
+		if v <= 1 { // possibly a bool: stay within {0, 1}
+			dup.val = protowire.AppendVarint(nil, 1-v)
+			return dup
+		}
+		dup.val = protowire.AppendVarint(nil, (v+1+uint64(r.Intn(5)))&0x7f)
+		if bytes.Equal(dup.val, x.val) {
+			dup.val = protowire.AppendVarint(nil, (v+7)&0x7f)
+		}
+	case protowire.Fixed32Type:
+		dup.val = protowire.AppendFixed32(nil, uint32(r.U64())|1)
+	case protowire.Fixed64Type:
+		dup.val = protowire.AppendFixed64(nil, r.U64()|1)
+	case protowire.BytesType:
+		dup.val = protowire.AppendBytes(nil, append([]byte("other-"), payloadOf(x)...))
+	}
+	return dup
 }
 
 // junkMessage: a generated message of the same type holding unrelated content (destination pre-fill).
@@ -1486,7 +1552,7 @@ func (rn *runner) history(t *Target, name string, steps int) {
 func (rn *runner) helperPointers(t *Target, name string) {
 	type slot struct {
 		idx int
-		mk  func() reflect.Value // pointer from the csproto helper
+		mk  func() reflect.Value  // pointer from the csproto helper
 		wr  func(p reflect.Value) // write another value through the pointer
 	}
 	probe := reflect.ValueOf(t.Messages[name].New()).Elem()
